@@ -404,8 +404,10 @@ func (t *corruptTorrent) GetPieceReader(i int) (storage.PieceReader, error) {
 // Logical progress rule (no wall clock): the harness sees every WritePiece call
 // on the agents that stay, with call/return stamps from one counter. If an
 // agent receives stuckK payloads for piece i whose bytes EQUAL the blob's piece
-// i, none of them overlapping any other write of i, and every one is refused
-// while the piece is still missing, the piece can never complete.
+// i, none of them overlapping any other write of i (finished OR still in
+// flight), and every one is refused with the write-conflict error while the
+// piece is still missing, the piece can never complete: the dirty mark belongs
+// to no running write.
 
 const stuckK = 6
 
@@ -429,19 +431,36 @@ type writeMonitor struct {
 	total  int64
 }
 
-func (m *writeMonitor) record(i int, r writeRec) {
+const conflictErr = "piece is already being written to" // agentstorage.errWritePieceConflict
+
+// enter registers a write of piece i as in flight (Ret open) and returns its
+// slot; a write that is parked inside the store overlaps everything that comes
+// after its call stamp until it returns.
+func (m *writeMonitor) enter(i int, call int64, correct bool) int {
 	m.mu.Lock()
 	defer m.mu.Unlock()
 	m.total++
-	m.writes[i] = append(m.writes[i], r)
-	if m.stuck != nil || !(r.Correct && r.Refused && r.Missing) {
+	m.writes[i] = append(m.writes[i], writeRec{Call: call, Ret: 1 << 62, Correct: correct})
+	return len(m.writes[i]) - 1
+}
+
+// leave closes the write and evaluates the rule: the piece can provably never
+// complete when stuckK correct payloads were refused with the write-conflict
+// ("dirty") error, the piece stayed missing, and none of them overlapped ANY
+// other write of the piece, finished or still in flight -- the dirty mark they
+// ran into then belongs to no running write and nobody will ever clear it.
+func (m *writeMonitor) leave(i, slot int, r writeRec) {
+	m.mu.Lock()
+	defer m.mu.Unlock()
+	m.writes[i][slot] = r
+	if m.stuck != nil || !(r.Correct && r.Refused && r.Missing && r.Err == conflictErr) {
 		return
 	}
 	ws := m.writes[i]
 	var errs []string
 	n := 0
 	for a, w := range ws {
-		if !(w.Correct && w.Refused && w.Missing) {
+		if !(w.Correct && w.Refused && w.Missing && w.Err == conflictErr) {
 			continue
 		}
 		overlap := false
@@ -460,6 +479,7 @@ func (m *writeMonitor) record(i int, r writeRec) {
 		m.stuck = map[string]interface{}{
 			"signature": "correct-piece-refused-repeatedly-while-missing", "peer": m.agent, "piece": i,
 			"correct_nonoverlapping_payloads_refused": n, "refusal_errors": errs, "writes_of_this_piece_seen": len(ws),
+			"writes": ws,
 		}
 	}
 }
@@ -508,6 +528,7 @@ func (t *watchTorrent) WritePiece(src storage.PieceReader, i int) error {
 		}
 	}
 	call := stampCounter.Add(1)
+	slot := t.m.enter(i, call, correct)
 	err := t.Torrent.WritePiece(piecereader.NewBuffer(b), i)
 	missing := !t.Torrent.HasPiece(i)
 	ret := stampCounter.Add(1)
@@ -515,7 +536,7 @@ func (t *watchTorrent) WritePiece(src storage.PieceReader, i int) error {
 	if err != nil && err != storage.ErrPieceComplete {
 		r.Refused, r.Err = true, err.Error()
 	}
-	t.m.record(i, r)
+	t.m.leave(i, slot, r)
 	return err
 }
 
